@@ -681,3 +681,57 @@ def spec_id_closures_total(fns, consts):
 
 
 SPECS["C01"] = [spec_id_closures_total]
+
+
+# ------------------------------------------------------------------ C09: the recursive parse uses the subcommand's own definition and matcher
+
+def spec_parse_subcommand(fns, consts):
+    """Parser::parse_subcommand (data flow on every feasible path): the command returned by
+    `_build_subcommand(name)` is the one the child parser AND the child matcher are created from;
+    the child parser parses into the child matcher (not the parent's); the child's matches are
+    attached to the PARENT matcher under the child's own name; a child error is returned unless
+    errors are ignored."""
+    con = contracts.Contracts(fns, default_pure=True)
+    ctx = symex.Ctx(consts, con)
+    fn = _find(fns, "parser/parser.rs", "parse_subcommand")
+    keep = ("bool", ctx.sym("keep_state", "Bool"))
+    ex = symex.Exec(ctx, fn, [("opq", "self"), ("opq", "sc_name"), ("opq", "parent_matcher"), ("opq", "raw_args"), ("opq", "cursor"), keep]).run(cut_loops=True)
+    obs = list(o for o in ex.obligations if o["kind"] not in ("assert", "panic"))
+    n_parse = 0
+    for (pc, val), ca in zip(ex.returns, ex.return_callargs):
+        def calls(rx):
+            return [c for c in ca if re.search(rx, c[0])]
+        build = calls(r"Command::_build_subcommand$")
+        pnew, mnew = calls(r"Parser::<'_>::new$"), calls(r"ArgMatcher::new$")
+        gm = calls(r"Parser::<'_>::get_matches_with$")
+        attach = calls(r"ArgMatcher::subcommand$")
+        ok, why = True, ""
+        if gm:
+            n_parse += 1
+            sc = build[0][2] + "@Some.0" if build else "?"
+            if not (len(pnew) == 1 and len(mnew) == 1 and pnew[0][1][0] == sc and mnew[0][1][0] == sc):
+                ok, why = False, "child parser/matcher are not both created from the command returned by _build_subcommand"
+            elif not (gm[0][1][0] == pnew[0][2] and gm[0][1][1] == mnew[0][2] and gm[0][1][1] != "parent_matcher"):
+                ok, why = False, "the child parser does not parse into the child's own matcher"
+            if val[0] == "enum" and val[1] == "Ok" and ok:
+                if not (len(attach) == 1 and attach[0][1][0] == "parent_matcher"):
+                    ok, why = False, "the child's matches are not attached to the parent matcher exactly once"
+        elif attach:
+            ok, why = False, "a subcommand is attached without having been parsed"
+        obs.append({"fn": fn.name, "block": "ret", "kind": "spec", "target": "parse_subcommand", "msg": "recursive parse uses the subcommand's own definition and matcher" + (": " + why if why else ""),
+                    "pc": list(pc), "neg": "false" if ok else "true"})
+        if val[0] == "enum" and val[1] == "Err":
+            ign = [k for k in ctx.keys if re.search(r"Command::is_ignore_errors_set\(", k)]
+            if not gm or len(ign) != 1:
+                obs.append({"fn": fn.name, "block": "ret", "kind": "spec", "target": "parse_subcommand", "msg": "an error is returned without a failed child parse", "pc": list(pc), "neg": "true"})
+            else:
+                obs.append({"fn": fn.name, "block": "ret", "kind": "spec", "target": "parse_subcommand", "msg": "a child error is swallowed when, and only returned when, errors are not ignored",
+                            "pc": list(pc), "neg": ctx.keys[ign[0]]})
+    if n_parse == 0:
+        raise Unsupported("parse_subcommand: no path runs the child parser (vacuous)")
+    for o in obs:
+        o.setdefault("target", "parse_subcommand")
+    return ctx, obs, [_enc(fn, ex, len(ex.returns))], con
+
+
+SPECS["C09"] = [spec_parse_subcommand]
